@@ -16,6 +16,7 @@ func init() {
 
 func c05(c *q.Ctx) {
 	poolMapOwner(c)
+	metaCopiesDistinct(c)
 	blockCacheCoherent(c)
 	keyLockProtocol(c)
 	const st = "bcs/ledger/xledger/state::"
